@@ -215,7 +215,7 @@ def build_all(name, files, meta, want_go, want_ir=True):
             res["go"] = core.run_prog([out], timeout=120)
     if want_ir:
         out = os.path.join(d, "p_ll.bin")
-        rc, so, se = core.llgo_build(w, llgo, src, out, flags=["-gen-llfiles"],
+        rc, so, se = core.llgo_build(w, llgo, src, out, flags=["-gen-llfiles"], timeout=3000,
                                      extra_env={"GOCACHE": GOCACHE_LL, "XDG_CACHE_HOME": XDG_LL})
         res["ll_build"] = (rc, so + se)
         if rc == 0:
@@ -281,6 +281,9 @@ def run_case(name, files, meta, probe=False):
         if g.kind != "exit" or g.rc != 0 or gp:
             return {"invalid": "the oracle fires on the REFERENCE output (generator/oracle bug): %s %s %s" % (g.kind, g.rc, gp[:3]), "ev": 0}
     rc, log = res["llgo_build"]
+    if rc == -999:
+        chk.inconclusive += 1
+        return {"ev": 0}
     if rc != 0:
         report(name + "-build", files, meta, "compile-failure", "llgo cannot build a program %s:\n%s" % (
             "that go accepts" if want_go else "(llgo-only: C file / linkname)", log[-1500:]), {"build.log": log})
@@ -310,7 +313,9 @@ def run_case(name, files, meta, probe=False):
     # IR leg
     stats = {}
     rc, log = res["ll_build"]
-    if rc != 0:
+    if rc == -999:
+        chk.inconclusive += 1
+    elif rc != 0:
         report(name + "-llbuild", files, meta, "compile-failure", "llgo -gen-llfiles cannot build the program:\n" + log[-1500:], {"build.log": log})
     else:
         l2 = res["ll"]
@@ -400,8 +405,11 @@ if "trace" in pr:
     chk.cov["evaluations"] += pr["trace"].count("\nW ")
     # the -gen-llfiles build of the probe program warmed the private caches; its IR is checked like any other
     rc, log = pr["res"]["ll_build"]
+    if rc == -999:
+        core.broken("-gen-llfiles build of the probe program timed out (cold private caches on an overloaded machine)")
     if rc != 0:
-        core.broken("-gen-llfiles build of the probe program failed:\n" + log[-2000:])
+        vio("probe-llbuild", probes.files(), pmeta, "[probe] llgo -gen-llfiles cannot build the probe program that the in-memory path builds:\n" + log[-1500:], {"build.log": log})
+        chk.finish()
     iprobs, istats = ir_monitor(dict(pmeta, packages=[probes.MOD + x for x in ("", "/t", "/pa", "/pb", "/g", "/sub/g")]), pr["res"]["dir"], probes.files())
     report_ir("probe", probes.files(), pmeta, iprobs, {})
     chk.cov["evaluations"] += istats.get("defined_names", 0) + istats.get("declarations", 0)
